@@ -1386,6 +1386,19 @@ impl<'c> Eng<'c> {
             R::Ok(data, from, to2, transport) => {
                 self.res.log.push(format!("send@{} {kind:?} tid#{i} -> Transmit({} bytes {:08x} to {to2})", ft(now as i128), data.len(), crate::refimpl::crypto::crc32_fast(&data)));
                 if is_req && outstanding {
+                    // the transmission that came back instead of the refusal: if it does not even carry
+                    // this message to this destination it is (also) a C18 matter
+                    if self.ctx.prop == "C18" && (to2 != addr(dest as usize) || data != bytes || from != self.local) {
+                        self.fail(
+                            "C18",
+                            "transmit-addressing",
+                            "StunAgent::send",
+                            "id-of-an-outstanding-request",
+                            format!("Err(AlreadyInProgress), or at the very least this message to {}", addr(dest as usize)),
+                            format!("Transmit({} bytes, {from} -> {to2})", data.len()),
+                        );
+                        return;
+                    }
                     self.fail("C05", "duplicate-id-refused", "StunAgent::send", "", "Err(AlreadyInProgress)".into(), "Ok(Transmit)".into());
                     return;
                 }
